@@ -138,6 +138,51 @@ def cli_part(check, cases):
                 return
 
 
+def odd_paths_part(check):
+    """the offending file may sit anywhere a file system lets it: under directory and file names with spaces, non-ASCII letters and
+    bytes that are not UTF-8 (legal on Linux).  A file that cannot be read as text or cannot be parsed still ends the run with a
+    diagnostic that names it; a fine file under such a path is generated or reported, never a panic"""
+    dirs = [("ascii", "models"), ("space", "my models"), ("non-ascii", "caf\u00e9"), ("non-utf8", os.fsdecode(b"caf\xe9")),
+            ("non-utf8-2", os.fsdecode(b"\xff\xfe_dir"))]
+    contents = [("non-utf8-content", b"#[typeshare]\npub struct S { a: u8 } // \xff\xfe\n"),
+                ("unparsable", b"#[typeshare]\npub struct S { a: u8,,, }\n"),
+                ("fine", b"#[typeshare]\npub struct S { pub a: u8 }\n")]
+    n = 0
+    for dlabel, dname in dirs:
+        for clabel, content in contents:
+            for fname in (["broken_input.rs"] if dlabel != "ascii" else ["broken_input.rs", os.fsdecode(b"broken_\xe9_input.rs")]):
+                lang = LANGS[n % 6]
+                multi = n % 3 == 0
+                n += 1
+                with Scratch() as sc:
+                    p = sc.write("proj/src/%s/%s" % (dname, fname), "")
+                    with open(p, "wb") as f:
+                        f.write(content)
+                    sc.write("proj/src/fine.rs", "#[typeshare]\npub struct Fine { pub a: u8 }\n")
+                    out = ["-d", sc.path("outdir")] if multi else ["-o", sc.path("out." + EXT[lang])]
+                    r = run_cli(["--lang", lang] + out + lang_args(lang) + [sc.path("proj")], cwd=sc.dir, timeout=30)
+                check.saw(("odd-path", dlabel, clabel, os.fsencode(fname).hex(), lang, multi), nontrivial=True)
+                check.count("odd-path-%s-%s-rc=%s" % (dlabel, clabel, "timeout" if r["timed_out"] else r["rc"]))
+                problem = None
+                if r["timed_out"]:
+                    problem = "did not terminate within 30 s"
+                elif "panicked at" in r["err"]:
+                    problem = "panicked: " + [l for l in r["err"].splitlines() if "panicked at" in l][0]
+                elif r["rc"] not in (0, 1):
+                    problem = "exit status %s" % r["rc"]
+                elif r["rc"] == 1 and "_input.rs" not in r["err"]:
+                    problem = "exits 1 and the diagnostic does not name the offending file"
+                elif r["rc"] == 0 and clabel != "fine":
+                    problem = "exits 0 although the file cannot be %s" % ("parsed" if clabel == "unparsable" else "read as text")
+                if problem:
+                    check.violation("typeshare --lang %s %s, a file (%s) under the directory name %r / file name %r: %s"
+                                    % (lang, "-d" if multi else "-o", clabel, os.fsencode(dname), os.fsencode(fname), problem),
+                                    case={"content": content.decode("latin-1"), "directory_name_bytes": list(os.fsencode(dname)),
+                                          "file_name_bytes": list(os.fsencode(fname)), "lang": lang, "multi_file": multi},
+                                    impl={"rc": r["rc"], "stderr": r["err"][-2000:]}, failing_input=True)
+                    return
+
+
 def error_among_many_part(check):
     """one file the parser cannot read among hundreds of good ones: the collector stops at the first error while the walker
     threads are still delivering results - the run must end with the diagnostic naming that file (exit 1), not with a panic in a
@@ -439,6 +484,8 @@ def run(check):
         entry_points_part(check)
     if not check.has_failing():
         error_among_many_part(check)
+    if not check.has_failing():
+        odd_paths_part(check)
     if not check.has_failing():
         multi_crate_part(check)
     if not check.has_failing():
